@@ -318,16 +318,32 @@ Section Refine.
       destruct (cross A (psums A p (third_incl A p)) g); reflexivity.
   Qed.
 
+  (* no stale reference: every resolved require of a project file names a project file; it follows from the
+     first-pass part when the index holds nothing but project files (the repaired RemoveOneFile) *)
+  Definition nostale_p (p : proj A) : Prop :=
+    forall g r t, In g (p_files p) -> res_of A p g = Some r -> In (Some t) (r_refs r) -> In t (p_files p).
+  Definition idx_sub (p : proj A) : Prop := forall x, In x (p_index p) -> In x (p_files p).
+
+  Lemma nostale_of_sub dk p :
+    (forall f, In f (p_files p) -> exists t s, aget dk f = Some t /\ aget (p_fsm p) f = Some s /\ good_file (p_index p) t s) ->
+    idx_sub p -> nostale_p p.
+  Proof.
+    intros Hin Hsub g r t Hg Hr Ht. destruct (Hin g Hg) as [t0 [s [_ [Hs [[r0 [Hr0 [_ [Hrefs _]]]] _]]]]].
+    unfold res_of in Hr. rewrite Hs, Hr0 in Hr. injection Hr as <-. rewrite Hrefs in Ht. apply in_refs_of in Ht.
+    apply Hsub. apply fmem_in. tauto.
+  Qed.
+
   (* a project whose first-pass part is right becomes good once the third pass has run *)
   Lemma good_after_third dk p :
     p_files p = dfiles dk ->
     (forall f, In f (p_files p) -> In f (p_index p)) ->
     (forall f, In f (p_files p) -> exists t s, aget dk f = Some t /\ aget (p_fsm p) f = Some s /\ good_file (p_index p) t s) ->
     (forall f, ~ In f (p_files p) -> aget (p_fsm p) f = None) ->
-    (forall f r t, In f (p_files p) -> res_of A p f = Some r -> In (Some t) (r_refs r) -> In t (p_files p)) ->
+    nostale_p p \/ idx_sub p ->
     good_proj dk (recompute_third A p).
   Proof.
-    intros Hf Hsup Hin Hout Hns.
+    intros Hf Hsup Hin Hout Hns0.
+    assert (Hns : nostale_p p) by (destruct Hns0 as [H|H]; [exact H|exact (nostale_of_sub dk p Hin H)]).
     assert (Hs : ssorted (p_files p)) by (rewrite Hf; apply dfiles_sorted).
     assert (Hincl : third_incl A p = p_files p) by (apply third_incl_id; assumption).
     constructor.
@@ -506,14 +522,11 @@ Section Refine.
     - split; [intros H; split; [intros ->; rewrite N.eqb_refl in E; discriminate|exact H]|intros [_ H]; exact H].
   Qed.
 
-  Definition nostale_p (p : proj A) : Prop :=
-    forall g r t, In g (p_files p) -> res_of A p g = Some r -> In (Some t) (r_refs r) -> In t (p_files p).
-
   (* ---------- Changed f (didSave, watched change): disk f := t, f was there ---------- *)
   Lemma he_changed dk0 p f t :
     good_proj dk0 p -> in_dir A f = true -> aget dk0 f <> None -> empty_hit_p A fx p f t = false ->
     let r := handle_events A fx (aset dk0 f t) p [(f, KChanged)] in
-    (nostale_p (fst r) -> good_proj (aset dk0 f t) (fst r)) /\
+    (nostale_p (fst r) \/ idx_sub (fst r) -> good_proj (aset dk0 f t) (fst r)) /\
     (snd r = false -> forall g, errs_of A (fst r) g = errs_of A p g).
   Proof.
     intros G Hd Hpres Hemp. cbn zeta. rewrite he_changed_eq. cbn zeta.
@@ -578,7 +591,7 @@ Section Refine.
   Lemma he_created dk0 p f t :
     good_proj dk0 p -> in_dir A f = true -> empty_hit_p A fx p f t = false ->
     let r := handle_events A fx (aset dk0 f t) p [(f, KCreated)] in
-    snd r = true /\ (nostale_p (fst r) -> good_proj (aset dk0 f t) (fst r)).
+    snd r = true /\ (nostale_p (fst r) \/ idx_sub (fst r) -> good_proj (aset dk0 f t) (fst r)).
   Proof.
     intros G Hd Hemp. cbn zeta. rewrite (he_created_eq _ _ _ Hd). cbn [fst snd]. split; [reflexivity|]. intros Hns.
     set (dk := aset dk0 f t) in *. set (p1 := created_proj p f) in *.
@@ -627,7 +640,7 @@ Section Refine.
   Lemma he_deleted dk0 p f :
     good_proj dk0 p -> in_dir A f = true ->
     let r := handle_events A fx (adel dk0 f) p [(f, KDeleted)] in
-    snd r = true /\ (nostale_p (fst r) -> good_proj (adel dk0 f) (fst r)).
+    snd r = true /\ (nostale_p (fst r) \/ idx_sub (fst r) -> good_proj (adel dk0 f) (fst r)).
   Proof.
     intros G Hd. cbn zeta. rewrite (he_deleted_eq _ _ _ Hd). cbn [fst snd]. split; [reflexivity|]. intros Hns.
     set (p1 := remove_file A fx p f) in *.
@@ -724,7 +737,7 @@ Section Refine.
       apply fmem_in in Hf. fold fl. rewrite Hf, Ed. split; [reflexivity|]. rewrite H2.
       split; [|left; reflexivity]. eexists. split; [reflexivity|]. unfold analyse. cbn. auto.
     - intros f Hf. rewrite H1 in Hf. cbn [p0 p_files] in Hf. rewrite H3. apply fmem_false in Hf. rewrite Hf. reflexivity.
-    - intros f r t Hf Hr Hin. rewrite H1 in *. cbn [p0 p_files] in *. unfold res_of in Hr. rewrite H3 in Hr.
+    - left. intros f r t Hf Hr Hin. rewrite H1 in *. cbn [p0 p_files] in *. unfold res_of in Hr. rewrite H3 in Hr.
       pose proof Hf as Hf'. apply fmem_in in Hf'. rewrite Hf' in Hr. destruct (aget dk f) as [t0|]; [|discriminate].
       cbn [s_res] in Hr. injection Hr as <-. unfold analyse in Hin. cbn [r_refs] in Hin. apply in_refs_of in Hin.
       apply fmem_in. tauto.
